@@ -268,6 +268,56 @@ def clause4(P, res):
             res.holds(rid, key, "drain, TTL, TTI and capacity passes are all invoked", where=f"{b.file}:{b.line}", obligations=4)
 
 
+def accumulator_local(b, op, depth=0):
+    """the multi-def local an operand copies from (`total += x` style accumulators), or None"""
+    p = mir.op_place(op)
+    if p is None or p[1] or depth > 4:
+        return None
+    ds = b.defs.get(p[0], [])
+    if len(ds) > 1:
+        return p[0]
+    if len(ds) == 1 and ds[0].kind == "assign" and ds[0].data["r"]["k"] == "use":
+        return accumulator_local(b, ds[0].data["r"]["o"], depth + 1)
+    return None
+
+
+def clause5(P, res):
+    rid = "C13-5"
+    res.rule(rid, "what is added is what was inserted, and per-iteration totals start from zero: (a) every fetch_add on current_cost adds the very cost given to the entry "
+                  "constructor of the same insertion (never a constant); (b) where a loop publishes an accumulated amount to current_cost, the accumulator is "
+                  "re-initialised on every trip round the loop — a total hoisted out of the loop is subtracted again by every later iteration")
+    n = 0
+    for b in cl.cache_bodies(P):
+        ctor_costs = {b.path_of_operand(e.args[1]) for e in b.calls() if (e.method or "").startswith("new") and "entry::CacheEntry" in (e.callee_full or e.callee) and len(e.args) > 1}
+        for k, e in enumerate(cl.cost_ops(b, {"fetch_add", "fetch_sub"})):
+            if len(e.args) < 2:
+                continue
+            amt = e.args[1]
+            if e.method == "fetch_add":
+                n += 1
+                key = f"{b.id}:fetch_add#{k}"
+                pth = b.path_of_operand(amt)
+                if b.const_of_operand(amt) is not None:
+                    res.violated(rid, key, f"current_cost grows by a constant at {e.loc} while the entry carries its own cost: every removal later subtracts the real cost and the "
+                                 "gauge drifts (wraps below zero)", where=e.loc)
+                elif ctor_costs and pth not in ctor_costs:
+                    res.violated(rid, key, f"current_cost grows by `{pth}` at {e.loc} but the entry inserted here was built with cost `{sorted(ctor_costs)[0]}`", where=e.loc)
+                else:
+                    res.holds(rid, key, f"adds `{pth}`, the cost the entry was built with" if ctor_costs else f"adds `{pth}`", where=e.loc, nontrivial=bool(ctor_costs))
+            acc = accumulator_local(b, amt)
+            if acc is not None and e.pos in b.pos_reach_set(e.pos):
+                n += 1
+                key = f"{b.id}:{e.method}#{k}:accumulator"
+                inits = [d.pos for d in b.defs.get(acc, []) if d.kind == "assign" and d.data["r"]["k"] == "use" and mir.op_const(d.data["r"]["o"]) is not None]
+                if inits and e.pos not in b.pos_reach_set(e.pos, removed=frozenset(inits)):
+                    res.holds(rid, key, f"`{b.local_name(acc)}` is reset on every iteration that publishes it", where=e.loc)
+                else:
+                    res.violated(rid, key, f"`{b.local_name(acc)}` is published to current_cost at {e.loc} inside a loop without being reset in between: amounts accumulated for "
+                                 "earlier iterations are applied again", where=e.loc)
+    if n < 10:
+        res.violated(rid, "cost-additions", f"expected >= 12 cost additions / loop-published totals, found {n}")
+
+
 def run(P, ctx):
     res = Result("C13")
     res.extra["explanation"] = ("Cost accounting shapes on the MIR of fibre_cache: removal=>subtract-that-entry's-cost, insert=>add, "
@@ -276,4 +326,5 @@ def run(P, ctx):
     clause2(P, res)
     clause3(P, res)
     clause4(P, res)
+    clause5(P, res)
     return res
